@@ -16,6 +16,9 @@ def verify_contracts(eng, contracts, chk, opts=None):
         try:
             eng.verify(c)
         except GeneratorError as e:
+            import os
+            if os.environ.get("PYVC_DEBUG"):
+                traceback.print_exc()
             chk.error("{}: {}: {}".format(c.target, type(e).__name__, e))
             continue
         except RecursionError:
